@@ -264,9 +264,18 @@ pub fn shown_names(doc: &Doc) -> [BTreeMap<i64, String>; 2] {
     out
 }
 
+thread_local! {
+    /// appended to every integer payoff literal of a Gambit text (e.g. "e305": the document's payoffs in units of 1e305)
+    static EFG_SUFFIX: std::cell::RefCell<String> = std::cell::RefCell::new(String::new());
+}
+
+pub fn set_efg_suffix(s: &str) {
+    EFG_SUFFIX.with(|x| *x.borrow_mut() = s.to_string());
+}
+
 fn lit(x: i64, scale: i64, rng: &mut Rng) -> String {
     if scale == 1 {
-        return x.to_string();
+        return EFG_SUFFIX.with(|s| format!("{x}{}", s.borrow()));
     }
     let g = gcd(x, scale);
     let (n, d) = (x / g, scale / g);
